@@ -67,6 +67,15 @@ var deniedPkgs = map[string]bool{
 	"internal/poll": true, "io/fs": true, "internal/abi": true,
 }
 
+// Functions of denied packages that are pure and executed from source.
+var allowedFns = map[string]bool{
+	"(runtime.errorString).Error":        true,
+	"(runtime.errorString).RuntimeError": true,
+	"(runtime.plainError).Error":         true,
+	"(runtime.plainError).RuntimeError":  true,
+	"(reflect.StructTag).Lookup":         true,
+}
+
 func (i *interpreter) noteCall(fn *ssa.Function, modelled bool) {
 	if i.fnCount != nil {
 		i.fnCount[fn]++
@@ -421,4 +430,28 @@ func convS(i *interpreter, t_dst, t_src types.Type, x value) value {
 		}
 	}
 	return conv(t_dst, t_src, x)
+}
+
+// appendVals is append(a, b...) that keeps spare capacity filled with zero
+// values of the element type (Go's native append leaves nil interfaces).
+func appendVals(elem types.Type, a, b []value) []value {
+	if len(a)+len(b) <= cap(a) {
+		return append(a, b...)
+	}
+	n := len(a) + len(b)
+	c := 2 * cap(a)
+	if c < n {
+		c = n
+	}
+	if c < 4 {
+		c = 4
+	}
+	out := make([]value, n, c)
+	copy(out, a)
+	copy(out[len(a):], b)
+	full := out[:c]
+	for k := n; k < c; k++ {
+		full[k] = zero(elem)
+	}
+	return out
 }
